@@ -73,6 +73,16 @@ func runC19(c *core.Ctx) {
 				if f.Kind == "blamed" {
 					rule = "C19-R2"
 				}
+				// a recorded finding stays the same finding when its code is
+				// moved into a helper that only the recorded function calls
+				if caller := soleCaller(c, fn); caller != nil && !fn.Obj.Exported() {
+					cand := caller.Key + "|" + f.Kind + "|" + f.Callee
+					for _, kk := range c.KnownKeys() {
+						if kk == rule+"|"+cand {
+							key = cand
+						}
+					}
+				}
 				c.Check(rule, key, "an error that may carry a source/sink failure is never discarded, swallowed or relabelled as a malformed-file error", func(o *core.Ob) {
 					o.At(fn.Site(f.Node, f.Kind+" error of "+f.Callee))
 					if why, ok := c19JustifiedFor(c, fn, f.Kind, f.Callee, 0); ok {
@@ -133,4 +143,23 @@ func c19JustifiedFor(c *core.Ctx, fn *core.Func, kind, callee string, depth int)
 		n++
 	}
 	return why, n > 0
+}
+
+// soleCaller returns the only function of fn's package that calls fn, or nil.
+func soleCaller(c *core.Ctx, fn *core.Func) *core.Func {
+	var found *core.Func
+	for _, other := range c.Prog.Funcs(fn.Pkg) {
+		if other == fn {
+			continue
+		}
+		for _, cs := range core.CallsIn(other.Info(), other.Decl.Body, true) {
+			if cs.Fn == fn.Obj {
+				if found != nil && found != other {
+					return nil
+				}
+				found = other
+			}
+		}
+	}
+	return found
 }
